@@ -146,7 +146,7 @@ def fields_optimal(r, o, native=True):
     return bad
 
 
-def cone_runs(ctx, cvxopt, kinds, n_inst, max_variants, prop, judge_exceptions=False):
+def cone_runs(ctx, cvxopt, kinds, n_inst, max_variants, prop, judge_exceptions=False, rankdef=0):
     """solve planted cone LPs in many presentations; every returned status is judged by the Lean checker.
     Violations are recorded on ctx with signatures prefixed by the property tag."""
     from corr import problems as PR
@@ -158,7 +158,8 @@ def cone_runs(ctx, cvxopt, kinds, n_inst, max_variants, prop, judge_exceptions=F
     tags = {}
     for i in range(n_inst):
         kind = rng.choice(kinds)
-        pr = PR.planted_conelp(rng, kind)
+        if i < rankdef: kind = 'rankdef'; pr = PR.rankdef_conelp(rng, i == 0)
+        else: pr = PR.planted_conelp(rng, kind)
         for tag, fn, tol, Gj, hj in variants_conelp(cvxopt, PR, pr, rng, max_variants):
             desc = {'seed': ctx.seed, 'index': i, 'kind': kind, 'presentation': tag, 'dims': pr.dims, 'c': pr.c, 'G': Gj or pr.G, 'h': hj or pr.h,
                     'A': pr.A, 'b': pr.b, 'tolerances': tol}
